@@ -289,8 +289,8 @@ def _gen_inputs(tier, rng):
     yield {"op": "mapper", "mask": None, "sub": None, "grid": [[1, 2], [300, 4]], "mesh": [[5, 6]], "mesh_kind": "Delaunay",
            "container": "irregular"}
     # ---- (h) histories on BorderRelocator objects, (s) scale equivariance
-    for _ in range(900 if big else 100): yield gen_hist(rng, big)
-    for i in range(400 if big else 45):
+    for _ in range(700 if big else 100): yield gen_hist(rng, big)
+    for i in range(300 if big else 45):
         if i % 3: yield gen_scale(rng)
         else:
             while True:
@@ -330,8 +330,8 @@ def gen_hist(rng, big):
     for r, sb in enumerate(subs):
         for _ in range(rng.randint(2, 3) if r == 0 else rng.randint(1, 2)):
             sl = sub_list(sb, n)
-            cont = rng.choice(["irregular", "irregular", "derived", "grid2d" if all(v == 1 for v in sl) else "irregular",
-                               "derived2d" if all(v == 1 for v in sl) else "derived"])
+            cont = rng.choice(["irregular", "irregular", "derived"] +
+                              (["grid2d", "derived2d", "slim2d"] if all(v == 1 for v in sl) else ["irregular", "derived"]))
             grids.append({"n": totals[r], "pts": distort(rng, unit_sub_grid16(m, sl)), "container": cont})
     meshes = []
     for _ in range(rng.randint(2, 3)):
@@ -399,6 +399,7 @@ def make_container(aa, kind, vals, mask):
     if kind == "irregular": return aa.Grid2DIrregular(values=vals), vals          # aliases the caller's array
     if kind == "grid2d": return aa.Grid2D(values=vals, mask=mask), None
     if kind == "derived": return (aa.Grid2DIrregular(values=vals * 0.5 - 3.0) + 3.0) * 2.0, None     # exact in doubles
+    if kind == "slim2d": return aa.Grid2D(values=vals, mask=mask).native.slim, None                  # native and back
     if kind == "derived2d": return (aa.Grid2D(values=vals * 0.5 - 3.0, mask=mask) + 3.0) * 2.0, None
     raise ValueError(kind)
 
